@@ -76,10 +76,10 @@ PROPS["C13"] = {
 }
 
 PROPS["C12"] = {
-    "pkgs": ["gbn"],
+    "pkgs": ["gbn", "mailbox"],
     "level": "exploration",
     "quick_budget": 60, "thorough_budget": 1800,
-    "rule": "Per run the tape picks the phase in which Close lands (constructor context cancelled mid-handshake, idle, mid-burst, full window with a blocked Send, inside a resend / sync wait, only Recv blocked) and the virtual instant inside it, who closes (client, server, both at the same instant), 1-3 concurrent callers per endpoint plus a repeated Close, the transport state at that moment (healthy, total blackout, send callbacks stalled until their context is cancelled), N, timeouts and keepalive. Oracles: Close returns within FIN timeout + 2 s; blocked and later local calls fail; the peer is closed with all its calls failed within FIN timeout + 2 x latency + 2 s on a healthy transport (keepalive bound on a dead one); afterwards no task spawned by the connection code is alive (task registry with spawn sites) and no ticker created by it still ticks (drain, advance one virtual hour, look)." + SIG_RULE,
+    "rule": "Per run the tape picks the phase in which Close lands (constructor context cancelled mid-handshake, idle, mid-burst, full window with a blocked Send, inside a resend / sync wait, only Recv blocked) and the virtual instant inside it, who closes (client, server, both at the same instant), 1-3 concurrent callers per endpoint plus a repeated Close, the transport state at that moment (healthy, total blackout, send callbacks stalled until their context is cancelled), N, timeouts and keepalive. Oracles: Close returns within FIN timeout + 2 s; blocked and later local calls fail; the peer is closed with all its calls failed within FIN timeout + 2 x latency + 2 s on a healthy transport (keepalive bound on a dead one); afterwards no task spawned by the connection code is alive (task registry with spawn sites) and no ticker created by it still ticks (drain, advance one virtual hour, look). mb-close: the same for the mailbox connections in the full stack over the stub relay (Close by client / server / both, 1-2 concurrent callers, idle or mid-transfer; bounded return; both applications released; after listener and dialer shutdown nothing of gbn/mailbox is left)." + SIG_RULE,
     "assumptions": ["leak oracle relies on the task registry of the simulator: every goroutine of the code under test is a registered task named by its spawn site"],
     "components": GBN_COMPONENTS,
     "expected_probes": ["c12.peer-notified"],
